@@ -40,7 +40,7 @@ pub fn profile(name: &str) -> Profile {
         // quiescent with evictions, costers, validators, metrics: C09 C16 C17 C15
         "cachet" => Profile { name: "cachet", tight: true, validators: true, costers: true, ..base },
         // colliding keys: C18
-        "cachec" => Profile { name: "cachec", collisions: true, ..base },
+        "cachec" => Profile { name: "cachec", collisions: true, validators: true, ..base },
         // schedules: C02 C06 C08 C10 C11 C12
         "caches" => Profile { name: "caches", quiescent: false, nclients: 3, lifecycle: true, tight: true, small_buf: true, steps: (30, 90), ..base },
         // every configuration: C20
@@ -316,6 +316,7 @@ pub fn suite_cache(rng: &mut Rng, cases: u64, t: &mut Trace, pname: &str) {
             *rng = rng_at_case.clone();
         }
         t.case(if attempt == 0 { id } else { id + 1_000_000 }, p.name);
+        let panics_before = crate::sched::PANICS.load(std::sync::atomic::Ordering::SeqCst);
         let cfg = gen_config(rng, &p);
         let flags = crate::monitors::Flags {
             exact_map: p.name == "cacheq" || p.name == "cacheqb",
@@ -379,7 +380,9 @@ pub fn suite_cache(rng: &mut Rng, cases: u64, t: &mut Trace, pname: &str) {
             }
         }
         t.mark_nontrivial();
-        if case.hung && attempt == 0 {
+        // (a worker that panicked is not a stall of the machine: nothing to run again)
+        let panicked = crate::sched::PANICS.load(std::sync::atomic::Ordering::SeqCst) > panics_before;
+        if case.hung && attempt == 0 && !panicked {
             case.mon.discard();
             case.abandon();
             stalls += 1;
